@@ -806,12 +806,16 @@ func (c *Converter) ConvertNotificationTypedValues(ctx context.Context, n *sdcpb
 			if err != nil {
 				return nil, err
 			}
-			expNn := &sdcpb.Notification{
+			// convert the expanded updates and carry on with the remaining updates of the notification
+			expNn, err := c.ConvertNotificationTypedValues(ctx, &sdcpb.Notification{
 				Timestamp: n.GetTimestamp(),
 				Update:    expUpds,
-				Delete:    n.GetDelete(),
+			})
+			if err != nil {
+				return nil, err
 			}
-			return c.ConvertNotificationTypedValues(ctx, expNn)
+			nn.Update = append(nn.Update, expNn.GetUpdate()...)
+			continue
 		}
 		if nup == nil { // filters out notification ending in non-presence containers
 			continue
